@@ -1,9 +1,11 @@
 #!/bin/bash
-# tools/run_all.sh [quick|thorough]  - every claimed check, sequentially, on /repo; summary at the end
+# tools/run_all.sh [quick|thorough] [Cxx ...]  - the claimed checks (all, or the ones named), sequentially, on /repo
 cd "$(dirname "$0")/.."
-tier=${1:-quick}
-for p in $(/venv/bin/python -c "import json; print(' '.join(c['property_id'] for c in json.load(open('MANIFEST.json'))['checks']))"); do
+tier=${1:-quick}; shift
+props="$@"
+[ -z "$props" ] && props=$(/venv/bin/python -c "import json; print(' '.join(c['property_id'] for c in json.load(open('MANIFEST.json'))['checks']))")
+for p in $props; do
   t0=$(date +%s)
-  timeout 7200 ./check $p --tier $tier > /tmp/runall_$p.log 2>&1; rc=$?
-  echo "$p rc=$rc $(( $(date +%s) - t0 ))s $(grep -E '^\[C' /tmp/runall_$p.log | cut -c1-150) $(grep -c '^VIOLATION' /tmp/runall_$p.log) violation-lines"
+  timeout 7200 ./check $p --tier $tier > /tmp/runall_${tier}_$p.log 2>&1; rc=$?
+  echo "$p rc=$rc $(( $(date +%s) - t0 ))s $(grep -E '^\[C' /tmp/runall_${tier}_$p.log | cut -c1-150) $(grep -c '^VIOLATION' /tmp/runall_${tier}_$p.log) violation-lines"
 done
